@@ -292,7 +292,11 @@ def main(argv=None):
                 "silent" if expect is None else "caught", c.name, old, new, failed, r["unsupported"]))
 
     # replay violations on the real code
-    os.makedirs(os.path.join(ROOT, "replays", prop), exist_ok=True)
+    rdir = os.path.join(ROOT, "replays", prop)
+    os.makedirs(rdir, exist_ok=True)
+    for old in os.listdir(rdir):
+        if old.endswith(".json"):
+            os.unlink(os.path.join(rdir, old))
     lines = []
     vio_out = []
     seen = set()
